@@ -253,8 +253,12 @@ fn rp(p: &str) -> RepoPathBuf {
 /// One generated input tree. Contents are 4-line files whose lines come in a
 /// few variants, so that merges resolve, conflict or cancel.
 fn gen_tree(store: &Arc<Store>, ch: &mut Chooser, base: Option<&BTreeMap<String, String>>) -> (MergedTree, BTreeMap<String, String>) {
+    let desc = gen_desc(ch, base);
+    (build_tree(store, &desc), desc)
+}
+
+fn gen_desc(ch: &mut Chooser, base: Option<&BTreeMap<String, String>>) -> BTreeMap<String, String> {
     let mut desc: BTreeMap<String, String> = BTreeMap::new();
-    let mut b = MergedTreeBuilder::new(store.empty_merged_tree());
     let d_is_file = ch.chance(1, 8);
     for p in PATHS {
         if d_is_file && p.starts_with("d/") {
@@ -287,7 +291,12 @@ fn gen_tree(store: &Arc<Store>, ch: &mut Chooser, base: Option<&BTreeMap<String,
     if d_is_file {
         desc.insert("d".to_string(), format!("F:dfile v{}", ch.choose(2)));
     }
-    for (p, v) in &desc {
+    desc
+}
+
+fn build_tree(store: &Arc<Store>, desc: &BTreeMap<String, String>) -> MergedTree {
+    let mut b = MergedTreeBuilder::new(store.empty_merged_tree());
+    for (p, v) in desc {
         let path = rp(p);
         let value = match v.split_once(':').unwrap() {
             ("S", t) => TreeValue::Symlink(store.write_symlink(&path, t).block_on().unwrap()),
@@ -303,7 +312,22 @@ fn gen_tree(store: &Arc<Store>, ch: &mut Chooser, base: Option<&BTreeMap<String,
         };
         b.set_or_remove(path, Merge::normal(value));
     }
-    (b.write_tree().block_on().unwrap(), desc)
+    b.write_tree().block_on().unwrap()
+}
+
+/// Makes `q` a four-line file in this description (dropping what was below it).
+fn make_file_at(desc: &mut BTreeMap<String, String>, q: &str, lines: &[String]) {
+    let prefix = format!("{q}/");
+    desc.retain(|p, _| !p.starts_with(&prefix));
+    desc.insert(q.to_string(), format!("F:{}", lines.join("|")));
+}
+
+/// Makes `q` a directory with fixed content in this description.
+fn make_dir_at(desc: &mut BTreeMap<String, String>, q: &str, variant: usize) {
+    let prefix = format!("{q}/");
+    desc.retain(|p, _| p != q && !p.starts_with(&prefix));
+    desc.insert(format!("{q}/k"), format!("F:kept v{variant}"));
+    desc.insert(format!("{q}/m"), "S:t0".to_string());
 }
 
 /// All leaf paths (files/symlinks) of single trees, recursively.
@@ -427,17 +451,62 @@ impl Engine for TaskSim {
         let n_sides = *chooser.pick(&[3usize, 3, 5, 7]);
         let (base_tree, base_desc) = gen_tree(&setup, &mut chooser, None);
         let mut ids: Vec<TreeId> = vec![];
-        let mut descs = vec![];
+        let mut descs: Vec<BTreeMap<String, String>> = vec![];
         for i in 0..n_sides {
             // removes (odd positions) are frequently the base itself
-            let (t, d) = if i % 2 == 1 && chooser.chance(1, 2) {
-                (base_tree.clone(), base_desc.clone())
+            let d = if i % 2 == 1 && chooser.chance(1, 2) {
+                base_desc.clone()
             } else {
-                gen_tree(&setup, &mut chooser, Some(&base_desc))
+                gen_desc(&mut chooser, Some(&base_desc))
             };
-            ids.push(t.tree_ids().as_resolved().unwrap().clone());
             descs.push(d);
         }
+        // Shape: at one path, the same directory appears in one added and one
+        // removed term (so it cancels), while the remaining terms hold a file
+        // whose versions change different lines (or the same line). The
+        // path-wise merge is then a content merge of the file versions.
+        if n_sides >= 5 && chooser.chance(1, 3) {
+            let q = *chooser.pick(&["d", "d/e", "f"]);
+            let rem = 1 + 2 * chooser.choose(n_sides / 2);
+            let mut add = 2 * chooser.choose(n_sides / 2 + 1);
+            if n_sides >= 7 && chooser.chance(1, 3) {
+                // two cancelling pairs
+                let rem2 = 1 + 2 * chooser.choose(n_sides / 2);
+                let add2 = 2 * chooser.choose(n_sides / 2 + 1);
+                if rem2 != rem && add2 != add {
+                    make_dir_at(&mut descs[rem2], q, 1);
+                    make_dir_at(&mut descs[add2], q, 1);
+                }
+            }
+            let variant = chooser.choose(2);
+            let base_lines: Vec<String> = (0..4).map(|i| format!("l{i} base")).collect();
+            for (i, d) in descs.iter_mut().enumerate() {
+                if d.contains_key(&format!("{q}/k")) {
+                    continue;
+                }
+                if i == rem || i == add {
+                    continue;
+                }
+                let mut lines = base_lines.clone();
+                if i % 2 == 0 {
+                    // added terms edit one line each
+                    let l = if chooser.chance(1, 4) { 0 } else { (i / 2) % 4 };
+                    lines[l] = format!("l{l} side{i}");
+                }
+                make_file_at(d, q, &lines);
+            }
+            if add == rem {
+                add = 0;
+            }
+            make_dir_at(&mut descs[rem], q, variant);
+            make_dir_at(&mut descs[add], q, variant);
+            out.probe("shape_directory_cancels_between_file_terms", 1);
+        }
+        for d in &descs {
+            let t = build_tree(&setup, d);
+            ids.push(t.tree_ids().as_resolved().unwrap().clone());
+        }
+        let _ = &base_tree;
         let inputs: Merge<TreeId> = Merge::from_vec(ids);
         let concurrency = *chooser.pick(&[2usize, 1, 3, 10]);
         let max_delay = *chooser.pick(&[3usize, 1, 4]);
@@ -555,7 +624,12 @@ impl Engine for TaskSim {
                     }
                     pre.push_str(c);
                     let v = value_at(&check_store, &inputs, &pre);
-                    if v.resolve_trivial(same_change).is_none() && !v.is_tree() {
+                    if v.resolve_trivial(same_change).is_none()
+                        && !v.is_tree()
+                        // directories that cancel between file terms leave a plain
+                        // file merge, which may well resolve
+                        && !resolve_file_values(&check_store, &rp(&pre), v).block_on().unwrap().is_resolved()
+                    {
                         found = true;
                     }
                 }
